@@ -35,7 +35,7 @@ func newRefServer(c caseSpec) refServer {
 			if c.mech == "scram512" {
 				h = sha512.New
 			}
-			return &stdScram{h: h, user: c.srvUser, pass: c.srvPass, iters: 4096}
+			return &stdScram{h: h, user: c.srvUser, pass: c.srvPass, iters: 4096, impostor: c.impostor}
 		}
 		return newXdgServer(c)
 	default:
@@ -147,6 +147,9 @@ type stdScram struct {
 	serverFirst string
 	nonce      string
 	salt       []byte
+	// impostor: a broker that does not know the password — it lets any proof pass and claims success with a
+	// verifier it cannot compute (SCRAM is mutual: the client must refuse)
+	impostor bool
 }
 
 func (s *stdScram) hmac(key []byte, msg string) []byte {
@@ -224,6 +227,11 @@ func (s *stdScram) step(token []byte) ([]byte, bool, bool) {
 		nonce, _ := attr(f, "r")
 		if cb != "biws" || nonce != s.nonce {
 			return []byte("e=other-error"), false, false
+		}
+		if s.impostor {
+			forged := make([]byte, s.h().Size())
+			rand.Read(forged)
+			return []byte("v=" + base64.StdEncoding.EncodeToString(forged)), true, true
 		}
 		proof, err := base64.StdEncoding.DecodeString(proof64)
 		if err != nil {
